@@ -49,10 +49,10 @@ Proof.
   apply save_service_spec in Es as (_ & _ & Hok).
   assert (Hsave : forall x, gc (st_save (key_of i) x (rest_dels d st1)) = gc st).
   { intros x. rewrite st_save_gc by (apply id_ok_not_gc; exact Hok). rewrite rest_dels_gc. congruence. }
-  destruct o; cbn.
-  - destruct (text_eqb (text_of i) (e_text mn)); [|cbn; apply Hsave].
-    pose proof (load_min_gc now (st_save (key_of i) (Entry (text_of i) (if maxI64 - now <=? ttl then maxI64 else now + ttl) sp) (rest_dels d st1))) as H3.
-    destruct (load_min now _) as [st3 mn']. cbn [fst] in *. rewrite H3. apply Hsave.
+  destruct o; cbn [fst].
+  - destruct (text_eqb (text_of i) (e_text mn)); [|cbn [fst]; apply Hsave].
+    match goal with |- context [load_min now ?x] => pose proof (load_min_gc now x) as H3; destruct (load_min now x) as [st3 mn'] end.
+    cbn [fst] in *. rewrite H3. apply Hsave.
   - rewrite rest_dels_gc. congruence.
   - apply Hsave.
 Qed.
@@ -109,26 +109,26 @@ Section IlPost.
   Proof.
     cbv zeta. unfold svc_update_il. fold (exp_of now ttl).
     destruct (if ttl <=? 0 then remove_service i st else Some st) as [st0|] eqn:E0;
-      [|cbn; split; [intros r Hr; discriminate|split; [exact Hwf|auto]]].
+      [|cbn [fst snd]; split; [intros r Hr; discriminate|split; [exact Hwf|auto]]].
     destruct (load_min now st0) as [st1 mn] eqn:E1.
     pose proof (good_load_min now st0 st1 mn (wf_step0 _ _ _ _ Hwf E0) Hnow E1) as G1.
     assert (Hfrom : forall m x, good now m x -> wf_svcs (svcs x) /\ (gcw_ok (svcs st) -> gcw_ok (svcs x))).
     { intros m x (Hw & _ & Hg). auto. }
     destruct ((0 <? ttl) && (e_sp mn <=? sp)) eqn:Eg.
-    2:{ cbn. split; [intros r Hr; inversion Hr; subst; exact G1|]. apply (Hfrom _ _ G1). }
+    2:{ cbn [fst snd]. split; [intros r Hr; inversion Hr; subst; exact G1|]. apply (Hfrom _ _ G1). }
     apply andb_true_iff in Eg as [Et El]. apply Z.ltb_lt in Et. apply Z.leb_le in El.
     destruct (save_service i _ st1) as [stx|] eqn:Es.
-    2:{ cbn. split; [intros r Hr; discriminate|]. apply (Hfrom _ _ G1). }
+    2:{ cbn [fst snd]. split; [intros r Hr; discriminate|]. apply (Hfrom _ _ G1). }
     apply save_service_spec in Es as (_ & Hinf & Hok). cbn [e_text e_exp] in Hinf.
     pose proof (good_dels now (e_sp mn) d st1 G1) as G1'.
     assert (G2 : good now (e_sp mn) (st_save (key_of i) (Entry (text_of i) (exp_of now ttl) sp) (rest_dels d st1))).
-    { apply good_save; cbn; auto. apply exp_of_live; assumption. }
-    destruct o; cbn.
+    { apply good_save; cbn [e_text e_exp e_sp]; auto. apply exp_of_live; assumption. }
+    destruct o; cbn [fst snd].
     - destruct (text_eqb (text_of i) (e_text mn)).
-      + destruct (load_min now _) as [st3 mn'] eqn:E3. cbn.
+      + match goal with |- context [load_min now (st_save ?a ?b ?c)] => destruct (load_min now (st_save a b c)) as [st3 mn'] eqn:E3 end. cbn [fst snd].
         pose proof (good_load_min now _ st3 mn' (proj1 G2) Hnow E3) as G3.
         split; [intros r Hr; inversion Hr; subst; exact G3|]. apply (Hfrom _ _ G3).
-      + cbn. split; [intros r Hr; inversion Hr; subst; exact G2|]. apply (Hfrom _ _ G2).
+      + cbn [fst snd]. split; [intros r Hr; inversion Hr; subst; exact G2|]. apply (Hfrom _ _ G2).
     - split; [intros r Hr; discriminate|]. apply (Hfrom _ _ G1').
     - split; [intros r Hr; discriminate|]. apply (Hfrom _ _ G2).
   Qed.
@@ -139,7 +139,7 @@ Lemma il_min_le_every_live_pf st i ttl sp now d o st' r :
   wf_svcs (svcs st) -> 0 <= sp -> now <= maxI64 -> svc_update_il st i ttl sp now d o = (st', Some r) ->
   wf_svcs (svcs st') /\ gcw_ok (svcs st') /\ forall k e, sv_get k (svcs st') = Some e -> now <= e_exp e /\ r_sp r <= e_sp e.
 Proof.
-  intros Hwf Hsp Hnow H. destruct (il_post st i ttl sp now d o Hwf Hsp Hnow) as (HA & _). rewrite H in HA. cbn in HA.
+  intros Hwf Hsp Hnow H. destruct (il_post st i ttl sp now d o Hwf Hsp Hnow) as (HA & _). rewrite H in HA. cbn [fst snd] in HA.
   destruct (HA r eq_refl) as (H1 & H2 & H3). auto.
 Qed.
 
